@@ -141,6 +141,7 @@ fn spec_off(t: &[u8], line: usize, col: usize) -> Option<usize> {
 macro_rules! text_len {
     ($name:ident, $n:expr) => {
         #[kani::proof]
+        #[kani::stub(alloc::vec::Vec::push, crate::stubs::push_no_grow)]
         #[kani::unwind(8)]
         #[kani::stub(succinctly::bits::EliasFano::build, ef_build)]
         #[kani::stub(succinctly::bits::EliasFano::get, ef_get)]
@@ -179,6 +180,7 @@ text_len!(c12_text_len8, 8);
 macro_rules! text_inverse {
     ($name:ident, $n:expr) => {
         #[kani::proof]
+        #[kani::stub(alloc::vec::Vec::push, crate::stubs::push_no_grow)]
         #[kani::unwind(8)]
         #[kani::stub(succinctly::bits::EliasFano::build, ef_build)]
         #[kani::stub(succinctly::bits::EliasFano::get, ef_get)]
@@ -213,6 +215,7 @@ const SK40: &[u8] = b"a\nb\nc\r\nd\re\n\nf\ng\r\n\r\nh\ni\rj\nk\nl\nm\r\nn\no\np
 macro_rules! skeleton {
     ($name:ident, $text:expr) => {
         #[kani::proof]
+        #[kani::stub(alloc::vec::Vec::push, crate::stubs::push_no_grow)]
         #[kani::unwind(8)]
         #[kani::stub(succinctly::bits::EliasFano::build, ef_build)]
         #[kani::stub(succinctly::bits::EliasFano::get, ef_get)]
@@ -244,6 +247,7 @@ skeleton!(c12_skeleton_20, SK20);
 skeleton!(c12_skeleton_40, SK40);
 
 #[kani::proof]
+#[kani::stub(alloc::vec::Vec::push, crate::stubs::push_no_grow)]
 #[kani::unwind(8)]
 #[kani::stub(succinctly::bits::EliasFano::build, ef_build)]
 #[kani::stub(succinctly::bits::EliasFano::get, ef_get)]
